@@ -299,7 +299,8 @@ def run(ctx):
     quick = ctx.tier == "quick"
     ctx.trusted += [
         "go.uber.org/ratelimit v0.2.0: its atomic Take algorithm is modelled by hand (Model/Limiter.v) and tied by "
-        "exact comparison under a fake clock; the slack default 10 is read from the library source, not translated",
+        "exact comparison under a fake clock; version, go.sum hash and the defaults (slack 10, window 1 s, atomic "
+        "implementation) are translated from go.mod/go.sum/module cache (Gen/RateLib.v, theorem C15_library_pinned)",
         "real time: clock.Sleep sleeps at least the requested duration; scheduling delay between Take returning and "
         "the frame reaching the wire is not modelled (application-engine runs measure it in the safe direction only)",
         "Go memory model: the compare-and-swap loop of Take serialises concurrent callers (modelled by conc_step)",
@@ -341,7 +342,7 @@ def run(ctx):
                       nontrivial=bool(o.get("ops") or o.get("scans") or o.get("sent")),
                       sample={k: (v[:6] if isinstance(v, list) else v) for k, v in o.items() if k not in ("kind",)})
     if os.path.exists(os.path.join(verif.ROOT, "harness", "bin", "c15")):
-        erows = e2e_runs(ctx, [ctx.seed % N_ARP_SPECS] if quick else list(range(len(E2E_SPECS))) + list(range(N_ARP_SPECS)) * 2)
+        erows = e2e_runs(ctx, [(ctx.seed + d) % N_ARP_SPECS for d in (0, 2, 5)] if quick else list(range(len(E2E_SPECS))) + list(range(N_ARP_SPECS)) * 2)
         for o in erows:
             if o.get("err"):
                 ctx.skipped.append("e2e sx %s --rate %s: %s" % (o["cmd"], o["rate_str"], o["err"]))
@@ -417,8 +418,9 @@ MANIFEST = {
     "technique": "Coq proof (GCRA invariant of the atomic limiter by induction over the call sequence; trace lemmas for "
                  "the wrappers) + translated wiring + exact differential correspondence under a fake clock",
     "level_text": "Theorems C15_spacing / C15_spacing_rational / C15_spacing_any_state (all call-time sequences, all "
-                  "rates N>=1, W>=0), C15_charged_once, C15_take_before_probe, C15_reads_free, C15_wiring and "
-                  "C15_limiter_iff_positive over the wiring regenerated from command/*.go; the real uber limiter is "
+                  "rates N>=1, W>=0), C15_window, C15_leave_sequential, C15_spacing_concurrent (every interleaving of the "
+                  "lock-free Take loop), C15_charged_once, C15_take_before_probe, C15_reads_free, C15_wiring, "
+                  "C15_limiter_iff_positive and C15_library_pinned over the wiring regenerated from command/*.go and go.mod; the real uber limiter is "
                   "compared call by call with the model on generated rates and call times, the real wrappers call by "
                   "call with a counting limiter.",
     "level_note": "Partial: real time and scheduling are not modelled (grant = time Take returns under an ideal clock); "
